@@ -191,6 +191,20 @@ Theorem C18_blank_line_irrelevant : forall d1 d2 n, elab (d1 ++ d2) = Ok n -> el
 Proof. exact blank_line_irrelevant. Qed.
 Print Assumptions C18_blank_line_irrelevant.
 
+(* REPAIRED (was the open finding C18-inout-outputs-first, surfaced by the any-order repair): a port named in an
+   .outputs line and in a later .inputs line raised AssertionError (pin connected twice).  parse_input_ports now
+   mirrors parse_output_ports (model: input_io / do_input): the port becomes INOUT and keeps its pin on its net -
+   the same netlist as with the .inputs line first *)
+Example C18_inout_outputs_first_repaired :
+  exists n m n' m', elab doc_inout_outputs_first = Ok n /\ find_model nm_top (b_models n) = Some m /\
+    elab doc_inout_inputs_first = Ok n' /\ find_model nm_top (b_models n') = Some m' /\
+    port_dir nm_io m = DInout /\ port_dir nm_io m' = DInout /\
+    (forall x, In x (dirs_of m) <-> In x (dirs_of m')) /\
+    same_wire m pin_io pin_i0_A /\ same_wire m' pin_io pin_i0_A /\
+    length (cable_pins (m_cables m)) = length (cable_pins (m_cables m')).
+Proof. exact inout_outputs_first_repaired. Qed.
+Print Assumptions C18_inout_outputs_first_repaired.
+
 (* REPAIRED in the code (finding outputs-before-inputs-drops-inputs): .clock, .outputs, .inputs in this order are
    all read, both ports have their direction, the input reaches the gate.  The document stays outside [supported]:
    its conjunct hdr_sorted keeps the order .inputs* .outputs* .clock* (comments and blank lines anywhere), because
